@@ -396,7 +396,13 @@ pub open spec fn arg_count<'a, T: Queryable>(a: ArgV<'a, T>) -> int {
     match a { ArgV::Val(v) => 1, ArgV::Nodes(ns) => ns.len() as int }
 }
 // abstract: number of Unicode scalar values == length of the char sequence; regex engine; extension hook
-pub uninterp spec fn regex_match(subject: Seq<char>, pattern: Seq<char>, search: bool) -> bool;
+// match / search: the pattern text is first rewritten by prepare_regex (string code: assumed unit; the anchoring `^(?:p)$` for match is
+// the bounded obligation regex.match), then compiled; an invalid pattern is no match
+pub uninterp spec fn prepared_pattern(pattern: Seq<char>, search: bool) -> Seq<char>;
+pub open spec fn regex_match(subject: Seq<char>, pattern: Seq<char>, search: bool) -> bool {
+    let q = prepared_pattern(pattern, search);
+    regex_valid(q) && (if search { re_find(q, subject) } else { re_is_match(q, subject) })
+}
 pub open spec fn opt_seq<A>(o: Option<A>) -> Seq<A> { match o { Some(v) => seq![v], None => Seq::<A>::empty() } }
 
 pub open spec fn length_of<T: Queryable>(v: T) -> Option<T> {
